@@ -131,6 +131,10 @@ func build(root string, tree []entry, fl flags) map[string]string {
 			// generated files without a template whose names are related to ok1.templ's (longer, shorter, sorted
 			// directly before or after it): orphans like any other
 			put(j(e.kind), staleGo, t0)
+		case "_scratch.go", ".#main.go", "_gen_templ.go":
+			// Go files the go tool ignores (a scratch file, an editor's lock file, an orphan with such a name): files like
+			// any other for the walk, whatever sorts after them is still visited
+			put(j(e.kind), otherGo, t0)
 		case "empty.templ":
 			put(j("empty.templ"), "", t0)
 		case "blank.templ":
@@ -233,6 +237,20 @@ func firstLines(s string, n int) string {
 	return strings.Join(l, "\n")
 }
 
+// runGuarded runs the real command with a hang guard: `templ generate` on a handful of small files takes milliseconds;
+// a run that has not returned after two minutes never will (a worker pool that has lost its workers, a walk blocked on
+// a full channel). The goroutine is left behind, the caller reports the hang and ends the worker process.
+func runGuarded(args generatecmd.Arguments) (err error, returned bool) {
+	done := make(chan error, 1)
+	go func() { done <- generatecmd.Run(context.Background(), quiet, args) }()
+	select {
+	case err = <-done:
+		return err, true
+	case <-time.After(2 * time.Minute):
+		return nil, false
+	}
+}
+
 // worker processes trees i with i % n == g and prints its counters and violations as one JSON line.
 func worker(trees [][]entry, cfgs []cfg, g, n int) {
 	scratch := tgen.Scratch()
@@ -273,8 +291,14 @@ func worker(trees [][]entry, cfgs []cfg, g, n int) {
 				}
 				path = "."
 			}
-			err := generatecmd.Run(context.Background(), quiet, generatecmd.Arguments{Path: path, WorkerCount: c.workers, KeepOrphanedFiles: c.fl.keep, Lazy: c.fl.lazy, IncludeVersion: c.fl.version})
+			err, returned := runGuarded(generatecmd.Arguments{Path: path, WorkerCount: c.workers, KeepOrphanedFiles: c.fl.keep, Lazy: c.fl.lazy, IncludeVersion: c.fl.version})
 			runs++
+			if !returned {
+				violation("run-does-not-return", fmt.Sprintf("tree [%s] %s workers=%d: `templ generate` had not returned after 2 minutes", treeString(tree), c.fl, c.workers))
+				b, _ := json.Marshal(map[string]any{"Runs": runs, "Failing": failing, "Nontrivial": nontrivial, "Violations": viols, "Hung": true})
+				fmt.Println("RESULT " + string(b))
+				os.Exit(0)
+			}
 			if mustFail {
 				failing++
 			}
@@ -307,8 +331,14 @@ func worker(trees [][]entry, cfgs []cfg, g, n int) {
 			}
 			results[c.fl] = got
 			// running it again changes no content
-			err2 := generatecmd.Run(context.Background(), quiet, generatecmd.Arguments{Path: path, WorkerCount: c.workers, KeepOrphanedFiles: c.fl.keep, Lazy: c.fl.lazy, IncludeVersion: c.fl.version})
+			err2, returned2 := runGuarded(generatecmd.Arguments{Path: path, WorkerCount: c.workers, KeepOrphanedFiles: c.fl.keep, Lazy: c.fl.lazy, IncludeVersion: c.fl.version})
 			runs++
+			if !returned2 {
+				violation("run-does-not-return", fmt.Sprintf("tree [%s] %s workers=%d: the second `templ generate` had not returned after 2 minutes", treeString(tree), c.fl, c.workers))
+				b, _ := json.Marshal(map[string]any{"Runs": runs, "Failing": failing, "Nontrivial": nontrivial, "Violations": viols, "Hung": true})
+				fmt.Println("RESULT " + string(b))
+				os.Exit(0)
+			}
 			if d := diff(got, snapshot(root)); d != "" || (err2 != nil) != mustFail {
 				violation("second-run-changes-tree", fmt.Sprintf("%s: second run: %s (err %v)", where, d, err2))
 			}
@@ -470,6 +500,13 @@ func treesAndConfigs(thorough bool) ([][]entry, []cfg) {
 			trees = append(trees, []entry{{"ok1.templ", d}, {"orphan_templ.go", sd}}, []entry{{"ok1.templ", d}, {"ok1_templ.go(stale)", sd}}, []entry{{"ok1.templ", d}, {"ok2.templ", sd}, {"ok1_extra_templ.go", sd}})
 		}
 	}
+	// files with names the walk might mistake for skipped directories, next to templates, orphans and sub-directories
+	// that sort after them
+	for _, d := range []string{"", "a"} {
+		for _, k := range []string{"_scratch.go", ".#main.go", "_gen_templ.go"} {
+			trees = append(trees, []entry{{k, d}, {"ok1.templ", d}}, []entry{{k, d}, {"ok1.templ", d}, {"orphan_templ.go", d}}, []entry{{k, d}, {"ok2.templ", filepath.Join(d, "parts")}, {"bad.templ", d}})
+		}
+	}
 	// templates that hold nothing (a new file, a file that was emptied): still one generated file each
 	for _, d := range []string{"", "a", "vendor"} {
 		for _, k := range []string{"empty.templ", "blank.templ", "onlypackage.templ"} {
@@ -534,6 +571,7 @@ func part1(run *vlib.Run, trees [][]entry, cfgs []cfg) {
 	type wres struct {
 		Runs, Failing, Nontrivial int64
 		Violations                []map[string]string
+		Hung                      bool
 	}
 	var wg sync.WaitGroup
 	var mu sync.Mutex
@@ -560,6 +598,9 @@ func part1(run *vlib.Run, trees [][]entry, cfgs []cfg) {
 			nontrivial.Add(r.Nontrivial)
 			for _, v := range r.Violations {
 				run.Violation(v["key"], v["what"], v)
+			}
+			if r.Hung {
+				run.Capped(fmt.Sprintf("worker %d stopped at a run that did not return; the trees after it were not run", g))
 			}
 			if err != nil {
 				msg := stderr.String()
